@@ -12,7 +12,7 @@ use std::time::Duration;
 
 const PROP: &str = "C20";
 pub const PORT: u16 = 6503;
-pub const N_STATES: usize = 12;
+pub const N_STATES: usize = 13;
 pub const N_VARIANTS: usize = 6;
 
 pub const STATE_NAMES: [&str; N_STATES] = [
@@ -28,6 +28,7 @@ pub const STATE_NAMES: [&str; N_STATES] = [
     "S9_connected_but_silent",
     "S10_dap_request_in_flight",
     "S11_pause_and_continue_before_configuration_done",
+    "S12_test_running_project_without_mos_toml",
 ];
 pub const VARIANT_NAMES: [&str; N_VARIANTS] = [
     "V1_shutdown_exit_close",
@@ -113,7 +114,9 @@ pub struct Verdict {
 fn sim_disk(state: usize) -> SimDisk {
     let mut d = SimDisk::new();
     d.add_dir(WS);
-    d.add_file(format!("{}/mos.toml", WS), b"[build]\nentry = \"main.asm\"\n".to_vec());
+    if state != 12 {
+        d.add_file(format!("{}/mos.toml", WS), b"[build]\nentry = \"main.asm\"\n".to_vec());
+    }
     let prog = if state == 7 { SHORT_PROGRAM } else { LONG_PROGRAM };
     d.add_file(format!("{}/main.asm", WS), prog.as_bytes().to_vec());
     d
